@@ -620,7 +620,8 @@ pub fn process<I: BufRead, O: Write>(
                     if caps.get(2).is_none() {
                         context.define(mcro, value);
                     } else {
-                        let mut rex = format!("\\b{}\\(", mcro);
+                        // White space may separate the name from the parenthesis of a call
+                        let mut rex = format!("\\b{}\\s*\\(", mcro);
                         let params = caps.get(2).unwrap().as_str();
                         if !params.is_empty() {
                             let mut names = Vec::new();
